@@ -419,6 +419,41 @@ def run(prog, rep, tier):
     if not stops:
         rep.info("process_missing_year has no early stop on --dt-after (slower, not wrong)")
 
+    # ------------------------------------------------------------ R11.8 which notations are "missing a year"
+    # The missing-year pass reads the whole file backwards and keeps every message until the walk is
+    # done.  It must run exactly for the notations that do not determine the year: a row has a year if
+    # its year field is a 4- or 2-digit year, or if it is a Unix epoch.  SyslineReader::dt_pattern_has_year
+    # is tabulated (by interpreting its MIR and that of the DTFSSet helpers it calls) over every
+    # (year, epoch) combination that occurs in DATETIME_PARSE_DATAS.
+    import enumeval
+    R118 = rep.rule("R11.8", "dt_pattern_has_year is true exactly for rows whose notation determines the year (year field, or Unix epoch)")
+    ya_ = facts.adts.get("s4lib::data::datetime::DTFS_Year")
+    ea_ = facts.adts.get("s4lib::data::datetime::DTFS_Epoch")
+    rows_ = facts.const("s4lib::data::datetime::DATETIME_PARSE_DATAS")
+    if not ya_ or not ea_ or not rows_:
+        raise CheckerError("R11.8: DTFS_Year / DTFS_Epoch / DATETIME_PARSE_DATAS not extracted")
+    yidx = {v_["name"]: v_["idx"] for v_ in ya_["variants"]}
+    eidx = {v_["name"]: v_["idx"] for v_ in ea_["variants"]}
+    combos = {}
+    for i_, r_ in enumerate(rows_):
+        f_ = r_["fields"]["dtfs"]["fields"]
+        combos.setdefault((f_["year"]["variant"], f_["epoch"]["variant"]), []).append(i_)
+    FNy = "s4lib::readers::syslinereader::SyslineReader::dt_pattern_has_year"
+    for (yv, ev), idxs in sorted(combos.items()):
+        try:
+            got = enumeval.eval_bool(prog, FNy, {"year": yidx[yv], "epoch": eidx[ev]})
+        except enumeval.Unknown as e_:
+            raise CheckerError("R11.8: dt_pattern_has_year not evaluable: %s" % e_)
+        want = yv in ("Y", "y") or ev != "_none"
+        rep.examined(R118, "dt_pattern_has_year|year=%s,epoch=%s" % (yv, ev), sample={"year": yv, "epoch": ev, "rows": len(idxs), "dt_pattern_has_year": got, "notation_determines_year": want})
+        if got != want:
+            if want:
+                rep.violation(R118, "dt_pattern_has_year|year=%s,epoch=%s" % (yv, ev), "dt_pattern_has_year() is false for the %d table rows with year=%s, epoch=%s although the notation determines the year; such logs go through the missing-year pass: "
+                              "the whole file is read backwards and held in memory, and for epoch rows an out-of-order line makes the pass loop forever" % (len(idxs), yv, ev))
+            else:
+                rep.violation(R118, "dt_pattern_has_year|year=%s,epoch=%s" % (yv, ev), "dt_pattern_has_year() is true for the %d table rows with year=%s, epoch=%s, which carry no year; their messages keep the dummy year" % (len(idxs), yv, ev))
+    rep.floor("R11.8", 3)
+
     # ------------------------------------------------------------ R11.7
     # The backward walk re-reads a message under the earlier year after a wrap.  The end of a
     # message is found by parsing the following lines *with the same assumed year*; a line that
